@@ -94,9 +94,25 @@ def r1_confinement(program, rep, inline):
         # the same method on the two halves of its inputs (position inside /
         # before the view): a bound that follows from a test of the position
         # survives the merge of the test's branches
-        halves = [Interp(meth, entry_cons=[le(S, E)] + eq(OFF, off0) + [c_],
+        # ... and on the sign of each count the caller passes (a parameter
+        # the method compares with a number): negative / zero / positive
+        counts = sorted(set(
+            chain(x_) for c_ in ast.walk(meth)
+            if isinstance(c_, ast.Compare) and len(c_.ops) == 1
+            for x_, y_ in ((c_.left, c_.comparators[0]),
+                           (c_.comparators[0], c_.left))
+            if isinstance(y_, ast.Constant) and
+            isinstance(y_.value, int) and not isinstance(y_.value, bool) and
+            chain(x_) in formals(meth)[1:]))
+        cases = [[c_] for c_ in (le(0, off0), lt(off0, 0))]
+        for nm in counts[:2]:
+            A_ = Poly.atom(nm)
+            cases = [cs + extra for cs in cases
+                     for extra in ([lt(A_, 0)], list(eq(A_, 0)),
+                                   [le(1, A_)])]
+        halves = [Interp(meth, entry_cons=[le(S, E)] + eq(OFF, off0) + cs,
                          inline_props=props, inline_methods=meths)
-                  for c_ in (le(0, off0), lt(off0, 0))]
+                  for cs in cases]
 
         class _Both(object):
             def holds_at(self, node_, cons):
@@ -416,6 +432,21 @@ def r5_guards(program, rep):
         for r in [n for n in ast.walk(fn) if isinstance(n, ast.Raise)]:
             pass
     # coverage
+    for cname in (CLS, MOD + ":MemoryIO"):
+        cdef = program.module(MOD).defs.get(cname.split(":")[1])
+        wrapped_later = isinstance(cdef, ast.ClassDef) and (
+            cdef.decorator_list or any(
+                isinstance(st_, ast.Assign) and
+                isinstance(st_.value, ast.Call) and
+                any(chain(a_) in ("_if_not_closed", "_if_not_freed")
+                    for a_ in ast.walk(st_.value))
+                for st_ in cdef.body))
+        if wrapped_later:
+            raise AnalysisError("%s: the guards are attached to the methods "
+                                "by a class decorator / after their "
+                                "definition, not by a decorator on each "
+                                "method; that form is not analysed" %
+                                cname.split(":")[1])
     for m in class_methods(program, CLS):
         if m.name in GUARDED_EXEMPT:
             continue
@@ -477,10 +508,19 @@ def r6_truncation_warning(program, rep):
         inst = qual(fn)
         fl = Flow(fn)
         cfg = fl.cfg
+        def _names_warning(e):
+            # the category, or an instance of it, or category=<it>
+            return chain(e) == "TruncationWarning" or (
+                isinstance(e, ast.Call) and
+                chain(e.func) == "TruncationWarning")
         warns = [c for c in calls_in(fn, "warn")
-                 if any(unparse(a) == "TruncationWarning" for a in c.args)]
+                 if any(_names_warning(a) for a in c.args) or any(
+                     _names_warning(k.value) for k in c.keywords)]
         sites = calls_in(fn, ("_perform_read", "_perform_write"))
         ok = len(warns) == 1 and len(sites) == 1
+        if len(warns) > 1:
+            raise AnalysisError("%s warns of truncation at several sites; "
+                                "the rule reads the one-site form" % name)
         rep.check(ok, "C13-R6", inst, "%s has one truncation warning site" %
                   name, construct="%s warn sites %d" % (name, len(warns)),
                   node=fn)
